@@ -673,6 +673,9 @@ impl MemBrokerService {
             max_epoch,
             failed_addresses,
         } = fetch_max_epoch(proxy_addresses).await;
+        #[cfg(feature = "verif_hooks")]
+        let (max_epoch, failed_addresses) =
+            crate::verif_hooks::epoch_override(max_epoch, failed_addresses);
         info!(
             "Get largest epoch {} with failed addresses: {:?}",
             max_epoch, failed_addresses
